@@ -385,6 +385,4 @@ def replay(w):
         check_bundled(res)
     else:
         run_program(corpus.item_protos(w["item"]), corpus.item_name(w["item"]), res, w)
-        if w.get("msg"):
-            res.violations = [v for v in res.violations if v["witness"].get("msg") in (None, w["msg"])]
     return res.violations
